@@ -160,10 +160,12 @@ Bad(x) == x = OffGrid
 EDivZero == 1073741826
 ESubInf  == 1073741827
 EInfInf  == 1073741828
+EOverflow == 1073741829
 IsErrV(x) == x >= EDivZero
 ErrName(x) == CASE x = EDivZero -> "DIVIDE_BY_ZERO"
                 [] x = ESubInf  -> "SUBTRACT_INFINITY"
                 [] x = EInfInf  -> "INFINITY_DIV_INFINITY"
+                [] x = EOverflow -> "VALUE_OVERFLOW"
                 [] OTHER        -> "?"
 
 \* integers must stay where TLC (32 bit) and the trace encoding are exact
@@ -172,6 +174,13 @@ RealBound == 16777216       \* 2^24: k/64 with |k| < 2^24 is an exact float
 Guard(x, real) ==
     IF real THEN (IF Abs(x) < RealBound THEN x ELSE OffGrid)
             ELSE (IF Abs(x) < IntBound THEN x ELSE OffGrid)
+
+\* a multi-terminal integer forest stores integers in [-2^30, 2^30 - 1]; a product
+\* outside that range cannot be made a terminal (both factors are on the grid)
+IntMulOverflow(a, b) ==
+    /\ a # 0 /\ b # 0
+    /\ IF (a > 0) = (b > 0) THEN Abs(a) > (1073741823 \div Abs(b))
+                            ELSE Abs(a) > (1073741824 \div Abs(b))
 
 \* product without 32-bit overflow inside TLC
 SafeMul(a, b) ==
@@ -186,12 +195,18 @@ SafeMul(a, b) ==
 (***************************************************************************)
 IsReal(cls) == cls \in {"R", "T"}
 
+\* (operands are below 2^30 in absolute value, so a + b and a - b are exact in TLC)
+IntOutOfRange(x) == x > 1073741823 \/ x < -1073741824
+
 ScPlus(cls, a, b) ==
-    IF cls = "P" /\ (a = Inf \/ b = Inf) THEN Inf ELSE Guard(a + b, IsReal(cls))
+    IF cls = "P" /\ (a = Inf \/ b = Inf) THEN Inf
+    ELSE IF cls = "I" /\ IntOutOfRange(a + b) THEN EOverflow
+    ELSE Guard(a + b, IsReal(cls))
 
 ScMinus(cls, a, b) ==
     IF cls = "P" /\ b = Inf THEN ESubInf
     ELSE IF cls = "P" /\ a = Inf THEN Inf
+    ELSE IF cls = "I" /\ IntOutOfRange(a - b) THEN EOverflow
     ELSE Guard(a - b, IsReal(cls))
 
 ScMult(cls, a, b) ==
@@ -201,6 +216,7 @@ ScMult(cls, a, b) ==
          THEN LET p == SafeMul(a, b)
               IN IF p = OffGrid THEN OffGrid
                  ELSE IF p % 64 # 0 THEN OffGrid ELSE Guard(TruncDiv(p, 64), TRUE)
+         ELSE IF cls = "I" /\ IntMulOverflow(a, b) THEN EOverflow
          ELSE LET p == SafeMul(a, b) IN IF p = OffGrid THEN OffGrid ELSE Guard(p, FALSE)
 
 ScDiv(cls, a, b) ==
@@ -255,6 +271,37 @@ CmpFn(op, f, g, one) ==
                         ELSE IF ScCmp(op, f[i], g[i]) THEN one ELSE 0]
 
 ErrsOf(fn) == {ErrName(fn[i]) : i \in {j \in DOMAIN fn : IsErrV(fn[j])}}
+
+(***************************************************************************)
+(* Canonical size.  For a function over a *set* domain the number of nodes *)
+(* of its reduced diagram is determined by the function alone:             *)
+(*   quasi-reduced : one node at level k per distinct cofactor over the    *)
+(*                   levels 1..k that is not identically transparent       *)
+(*   fully-reduced : ... and that depends on the variable at level k       *)
+(* (edge-valued: cofactors are compared after normalisation, i.e. after    *)
+(* subtracting their minimum).  f is the table by rank, level 1 fastest.   *)
+(***************************************************************************)
+BlocksAt(f, ds, k) ==
+    LET B == ProdUpTo(ds, k)
+    IN {SubSeq(f, u * B + 1, (u + 1) * B) : u \in 0..((Len(f) \div B) - 1)}
+
+NormEVP(b) ==
+    LET fin == {b[i] : i \in {j \in DOMAIN b : b[j] # Inf}}
+    IN IF fin = {} THEN b
+       ELSE LET m == SetMin(fin) IN [i \in DOMAIN b |-> IF b[i] = Inf THEN Inf ELSE b[i] - m]
+
+DependsOnTop(b, ds, k) ==
+    LET B1 == ProdUpTo(ds, k - 1)
+    IN \E j \in 1..(ds[k] - 1) : SubSeq(b, j * B1 + 1, (j + 1) * B1) # SubSeq(b, 1, B1)
+
+CanonSize(f, ds, evp, full) ==
+    LET transparent == IF evp THEN Inf ELSE 0
+        nodesAt(k) ==
+            LET bs0 == BlocksAt(f, ds, k)
+                bs  == IF evp THEN {NormEVP(b) : b \in bs0} ELSE bs0
+            IN Cardinality({b \in bs : (\E i \in DOMAIN b : b[i] # transparent)
+                                        /\ (full => DependsOnTop(b, ds, k))})
+    IN SumOver(Len(ds), nodesAt)
 
 (* Unary maps *)
 DistIncFn(f) == [i \in DOMAIN f |-> IF Bad(f[i]) THEN OffGrid
